@@ -14,6 +14,8 @@ fingerprints cannot depend on VERIF_SEED.
 
 Enumerated: baseline + every 1- and 2-dimension deviation (quick: 2-deviations only when structure or charset is involved),
 the attachment space (attachment lists x the four structures with attachment slots [x one more deviation in thorough]),
+the full product structure x charset x transfer encoding x line end [x 3 body texts], 4 embedded-message variants of the
+message/rfc822 structure [x one more deviation],
 each as .eml and as single-message mbox in all three separator forms; the From-line variants for all <=1-deviations; all
 ordered pairs and triples over a 6-spec alphabet x 9 separator/From-line variants; the empty mailbox.
 
@@ -76,6 +78,7 @@ def _member_atoms() -> dict:
         "docx-noname": {"filename": None, "ctype": DOCX_MIME, "cte": "base64", "data_hex": d},
         "docx-2231": {"filename": "Bericht über 中文.docx", "filename_style": "rfc2231", "ctype": DOCX_MIME, "cte": "base64",
                       "data_hex": d},
+        "docx-noext": {"filename": "report", "filename_style": "plain", "ctype": DOCX_MIME, "cte": "base64", "data_hex": d},
         "txt-utf8": {"filename": "note2.txt", "filename_style": "plain", "ctype": "text/plain", "charset": "utf-8", "cte": "base64",
                      "data_hex": (_TOK["B3"] + " café €\n").encode("utf-8").hex()},
     }
@@ -93,7 +96,18 @@ def atom(name: str) -> dict:
     return _MEMBERS[name]
 
 
-ATOM_NAMES = list(ATOMS) + ["docx", "docx-octet", "docx-noname", "docx-2231", "txt-utf8"]
+_I0 = mail.INNER_DEFAULT
+_XI = mail._n("X")
+# embedded messages of structure rfc822-attachment (own dimension "inner"; index 0 = the generator's default inner message)
+DOM["inner"] = [
+    None,
+    dict(_I0, charset="iso-8859-1", cte="8bit", body_plain=_XI + " café inner\n"),
+    dict(_I0, structure="alternative"),
+    dict(_I0, structure="mixed-plain-att-att"),
+    dict(_I0, structure="rfc822-attachment"),
+]
+
+ATOM_NAMES = list(ATOMS) + ["docx", "docx-octet", "docx-noname", "docx-2231", "docx-noext", "txt-utf8"]
 ATT_STRUCTS = [3, 4, 6, 7]          # mixed-alt-att, mixed-plain-att-att, mixed-mixed, rfc822-attachment
 PAIR_ALPHA = ["txt", "docx", "bin256", "noname"]
 
@@ -162,6 +176,38 @@ def att_specs(tier: str) -> list:
     return [cs for cs in out if expressible(cs)]
 
 
+def inner_specs(tier: str) -> list:
+    """Embedded-message variants of structure rfc822-attachment (x one more deviation)."""
+    out = []
+    for i in range(1, len(DOM["inner"])):
+        out.append({"structure": 7, "inner": i})
+        for k in DIMS:
+            if k in ("structure", "attachments"):
+                continue
+            for v in range(1, len(DOM[k])):
+                if tier == "quick" and not ((k, v) in (("body_plain", 6), ("line_end", 1), ("cte", 3))):
+                    continue
+                out.append({"structure": 7, "inner": i, k: v})
+    return [c for c in out if expressible(c)]
+
+
+def decoding_specs(tier: str) -> list:
+    """Full product of the dimensions that decide how a body is decoded: structure x charset x transfer encoding x line end
+    (thorough: x three body texts)."""
+    out = []
+    bodies = [0] if tier == "quick" else [0, 2, 3]
+    for st in range(len(DOM["structure"])):
+        for cs_ in range(len(DOM["charset"])):
+            for cte in range(len(DOM["cte"])):
+                for le in range(len(DOM["line_end"])):
+                    for b in bodies:
+                        if b and DOM["structure"][st] not in mail.HAS_PLAIN:
+                            continue
+                        c = {"structure": st, "charset": cs_, "cte": cte, "line_end": le, "body_plain": b}
+                        out.append({k: v for k, v in c.items() if v})
+    return [c for c in out if expressible(c)]
+
+
 MULTI_ALPHA = [{}, {"structure": 2}, {"structure": 4}, {"body_plain": 4}, {"cte": 3, "subject": 1}, {"body_plain": 6}]
 SEPS = ["standard", "no-blank-line", "crlf"]
 FLBS = [None, "escaped", "unescaped"]
@@ -180,7 +226,7 @@ def all_cases(tier: str) -> list:
     singles = base_specs(tier)
     atts = att_specs(tier)
     seen = set()
-    for cs in singles + atts:
+    for cs in singles + atts + decoding_specs(tier) + inner_specs(tier):
         key = json.dumps(cs, sort_keys=True)
         if key in seen:
             continue
@@ -277,6 +323,22 @@ def _eol(b: bytes) -> bytes:
     return b.replace(b"\r\n", b"\n")
 
 
+def _same_message(a: bytes, b: bytes) -> bool:
+    """An embedded message may be re-serialised (line ends, 8bit -> quoted-printable, parameter quoting): equal when the standard
+    library reads the same fields, bodies, attachments and inline parts from both."""
+    try:
+        pa, pb = mail.parse(a), mail.parse(b)
+        inl_a, inl_b = [tuple(x) for x in pa["inline"]], [tuple(x) for x in pb["inline"]]
+        pa["inline"] = []
+        pa["body_fuzzy"] = False
+        nested = [(x[0], x[1], _eol(x[2]) if x[1] == "message/rfc822" else x[2]) for x in pa["attachments"]]
+        nested_b = [(x[0], x[1], _eol(x[2]) if x[1] == "message/rfc822" else x[2]) for x in pb["attachments"]]
+        pa["attachments"], pb["attachments"] = nested, nested_b
+        return not mail.diff(pa, pb, "exact") and inl_a == inl_b
+    except Exception:                                    # noqa: BLE001
+        return False
+
+
 def match_attachments(exp_atts, inline, got_atts):
     """-> (list of (clause, message), aligned pairs [(exp, got)...]).  Inline parts of multipart/related may or may not be listed."""
     inl = [(a[1], a[2]) for a in inline]
@@ -293,7 +355,7 @@ def match_attachments(exp_atts, inline, got_atts):
             fails.append(("att_name", "attachment %d: expected name %r, got %r" % (i, e[0], g[0])))
         if (e[1] or "").lower() != (g[1] or "").lower():
             fails.append(("att_type", "attachment %d (%r): expected type %r, got %r" % (i, e[0], e[1], g[1])))
-        same = (_eol(e[2]) == _eol(g[2])) if e[1] == "message/rfc822" else (e[2] == g[2])
+        same = (_eol(e[2]) == _eol(g[2]) or _same_message(e[2], g[2])) if e[1] == "message/rfc822" else (e[2] == g[2])
         if not same:
             fails.append(("att_bytes", "attachment %d (%r, %s): expected %d bytes %s, got %d bytes %s" % (
                 i, e[0], e[1], len(e[2]), short(e[2], 80), len(g[2]), short(g[2], 80))))
@@ -364,11 +426,11 @@ def _name_supported(name) -> bool:
     return _EXT_OK[name]
 
 
-def _standalone(name: str, mime: str, data: bytes):
-    """The attached file on its own: routed by its name, else by its MIME type; same path argument."""
+def _standalone(name: str, mime: str, data: bytes, named: bool = True):
+    """The attached file on its own: routed by its name (when the message gives it one), else by its MIME type; same path argument."""
     from sharepoint2text.parsing.mime_types import MIME_TYPE_MAPPING
     from sharepoint2text.parsing.router import get_extractor
-    if _name_supported(name):
+    if named and _name_supported(name):
         ex = get_extractor(name)
     else:
         ex = get_extractor("attachment." + MIME_TYPE_MAPPING[mime])
@@ -398,8 +460,8 @@ def attachment_extract_fails(exp: dict, got: dict) -> list:
         clause = "att_extract" if (by_name and by_mime) or (e[0] is None and by_mime) else (
             "att_extract_name_only" if by_name else "att_extract_mime_only")
         try:
-            want = _standalone(g[0], e[1], g[2])
-            if want != _standalone(g[0], e[1], g[2]):
+            want = _standalone(g[0], e[1], g[2], e[0] is not None)
+            if want != _standalone(g[0], e[1], g[2], e[0] is not None):
                 continue                               # standalone extraction is not a function of the bytes: not judged here
         except Exception:                              # noqa: BLE001 - the file on its own does not extract: nothing to equal
             continue
@@ -483,7 +545,7 @@ def agree_fails(e: dict, m: dict, skip_fields: set, mboxo: dict) -> list:
         else:
             same = [((x[1] or "").lower(), _eol(x[2])) for x in a] == [((x[1] or "").lower(), _eol(x[2])) for x in b]
         if not same:
-            out.append(("agree:" + f, "the same message read as .eml gives %s = %s, as single-message .mbox %s" % (
+            out.append(("agree:" + ("body" if f.startswith("body_") else f), "the same message read as .eml gives %s = %s, as single-message .mbox %s" % (
                 f, short(a if f != "attachments" else [(x[0], x[1], len(x[2])) for x in a], 140),
                 short(b if f != "attachments" else [(x[0], x[1], len(x[2])) for x in b], 140))))
     return out
@@ -645,8 +707,12 @@ def _shrink_spec(cs):
         if k == "structure" and "attachments" in c:
             continue
         yield c
-    if cs.get("structure") in (3, 6, 7):
+    if cs.get("inner", 0) > 3:
+        yield dict(cs, inner=3)                        # nested twice -> embedded message with attachments
+    if cs.get("structure") in (3, 6, 7) and "inner" not in cs:
         yield dict(cs, structure=4)                    # the plainest attachment-bearing structure
+    if cs.get("structure") in (2, 3, 5) and "attachments" not in cs:
+        yield dict(cs, structure=1)                    # the plainest structure with an HTML body
     if "attachments" in cs and len(cs["attachments"]) > 1:
         lst = cs["attachments"]
         for i in range(len(lst)):
@@ -685,6 +751,8 @@ def _spec_embeds(small, big) -> bool:
             it = iter(big[k])
             if not all(any(a == b for b in it) for a in v):
                 return False
+        elif k == "structure" and ((v == 4 and big[k] in ATT_STRUCTS) or (v == 1 and big[k] in (1, 2, 3, 5))):
+            continue                                   # 4 / 1: the plainest attachment-bearing / HTML-bearing structure (see _shrink_spec)
         elif big[k] != v:
             return False
     return True
@@ -773,9 +841,9 @@ def run(ctx):
         samples.append(s)
     cov = {"evaluations": ev, "distinct_nontrivial": len(outcomes), "exhaustive": True,
            "rule": "every message spec with <= 2 deviating dimensions over the 17-dimension grammar of verif.gen.mail (quick: 2-deviations "
-                   "only with structure or charset), plus attachment lists (14 atoms as singletons, all ordered pairs over {txt, docx, "
+                   "only with structure or charset), plus attachment lists (15 atoms as singletons, all ordered pairs over {txt, docx, "
                    "bin256, noname}, the permutations of [txt, docx, bin256]) x 4 attachment-bearing structures (thorough: x one more "
-                   "deviation); each spec as .eml and as single-message mbox x {standard, no-blank-line, crlf}; the <=1-deviation specs also "
+                   "deviation), plus the full product structure x charset x transfer encoding x line end (thorough: x 3 body texts), 4 embedded-message variants of rfc822-attachment (x one more deviation); each spec as .eml and as single-message mbox x {standard, no-blank-line, crlf}; the <=1-deviation specs also "
                    "with the escaped / unescaped From-line body variant; all ordered pairs and triples over a 6-spec alphabet x 3 separators x "
                    "3 From-line variants; the empty mailbox; 2 .msg fixtures. distinct_nontrivial = distinct (format, observed shape, "
                    "violated clauses) classes",
@@ -788,7 +856,8 @@ def run(ctx):
         "with charset unknown-8bit only the ASCII skeleton of a body is judged",
         "dates are compared as instants (a naive ISO value counts as UTC); message ids modulo the surrounding angle brackets",
         "the name of an attachment without a filename parameter is not judged (the library invents a placeholder)",
-        "the bytes of a message/rfc822 attachment are compared modulo CRLF/LF (7bit/8bit parts have transport line ends); the inline image "
+        "the bytes of a message/rfc822 attachment are compared modulo CRLF/LF (7bit/8bit parts have transport line ends) and, failing that, "
+        "as messages (a re-serialised but equivalent embedded message, e.g. 8bit turned into quoted-printable, is accepted); the inline image "
         "of multipart/related may or may not be listed as an attachment",
         "mbox bodies: both the original text and the mboxo-escaped ('>From ') text as mailbox.mbox reads it back are accepted",
         "mbox with an *unescaped* From line in a body is not a valid mboxo file: only the message count is judged (the written count or "
